@@ -2399,6 +2399,18 @@ def C15(c):
         idx[j] = (len(lines), {i: nm for i, nm in zip(ids, names)})
         lines.append(alg.request(e, ids, ot not in SUMS_ONLY))
     answers = model_query(lines)
+    # corpus: short histories that exposed state across calls before (the demonstrations of seeded changes), run first, while this interpreter
+    # has run nothing else; every call is compared with the model's answer for that call alone
+    from engine import timed as _timed
+    for hno, hist in enumerate(corpus("C15")):
+        ans_h = model_query([ALGS[e["alg"]].request(e, list(e["vals"]), True) for e in hist])
+        for step, (e, a) in enumerate(zip(hist, ans_h)):
+            got = _timed(lambda: ALGS[e["alg"]].call_impl(e, "list", PT, list(e["vals"])))
+            want = project_model(a, PT, {v: v for v in e["vals"]})
+            c.evaluations += 1; c.corr_cases += 1
+            c.stats["corpus-histories"]["calls"] += 1
+            c.check_direct(e["alg"], dict(e["p"], vals=e["vals"], alg=e["alg"], fmt="list", outtype=PT, history=f"corpus {hno}", step=step), "history-dependent",
+                           got == want, got, f"the answer of the model for this call alone: {json.dumps(want, default=str)[:200]}")
     # histories: random call sequences in THIS interpreter
     n_hist = c.n(10, 40)
     for hno in range(n_hist):
@@ -2445,9 +2457,9 @@ def C15(c):
         c.sample({"history": hno, "length": len(seq), "first_calls": [f"{calls[q][0]['alg']}/{calls[q][1]}/{calls[q][2]}" for q in seq[:8]]})
     # the same hard bin-completion call three times in a row in this interpreter (state that survives a search and is CHANGED by it - a cached
     # list of completions consumed with pop - makes the second or third identical call differ from the first)
-    hard_calls = [(e, fmt, ot, names) for (e, fmt, ot, names) in calls if e["alg"] == "bin_completion" and fmt in ("list", "array") and len(e["vals"]) >= 5][: c.n(150, 600)]
+    hard_calls = [(j, e, fmt, ot, names) for j, (e, fmt, ot, names) in enumerate(calls) if e["alg"] == "bin_completion" and fmt in ("list", "array") and len(e["vals"]) >= 5][: c.n(150, 600)]
     from engine import timed
-    for e, fmt, ot, names in hard_calls:
+    for j, e, fmt, ot, names in hard_calls:
         outs = [timed(lambda: ALGS[e["alg"]].call_impl(e, fmt, ot, names)) for _ in range(3)]
         c.evaluations += 3; c.corr_cases += 1
         c.stats["repeated-bin-completion"]["triples"] += 1
@@ -2456,6 +2468,12 @@ def C15(c):
             continue
         label = dict(e["p"], vals=e["vals"], alg=e["alg"], fmt=fmt, outtype=ot, repeated=3)
         c.check_direct(e["alg"], label, "not-repeatable", outs[0] == outs[1] == outs[2], outs, "three identical answers to three identical calls")
+        # ... and, after everything this interpreter has run by now, still the answer of the state-free model (state that only ever GROWS -
+        # a mutable default argument collecting 'dominated' completions - shows here at the latest)
+        if j in idx:
+            k_, by_id = idx[j]
+            want = project_model(answers[k_], ot, by_id)
+            c.check_direct(e["alg"], label, "history-dependent", outs[0] == want, outs[0], f"the answer of the model for this call alone: {json.dumps(want, default=str)[:200]}")
     # ilp after an ilp call that FAILED (unsatisfiable caller constraints; a time limit that expires at once): the next call must not inherit anything
     ilp_cases = [e for e in pool_cases if e["alg"] == "ilp" and len(e["vals"]) >= 2][: c.n(12, 60)]
     for e in ilp_cases:
